@@ -17,7 +17,7 @@ import sys
 import time
 
 VERIF = os.path.dirname(os.path.dirname(os.path.abspath(__file__)))
-REPO = '/repo'
+REPO = os.environ.get('SEED_TREE', '/repo')   # a scratch worktree of /repo, or /repo itself
 PY = '/venv/bin/python'
 
 
@@ -69,7 +69,8 @@ def evaluate(d, extra_props=()):
         checks = {}
         for p in (prop,) + tuple(extra_props):
             t0 = time.time()
-            rc, out = sh('./check %s --tier quick' % p, cwd=VERIF, timeout=3600)
+            rc, out = sh('./check %s --tier quick' % p, cwd=VERIF, timeout=3600,
+                         env=({'SC3_REPO': REPO} if REPO != '/repo' else {}))
             vl = [l for l in out.split('\n') if l.startswith('VIOLATION')]
             checks[p] = {'exit': rc, 'violations': len(vl),
                          'first': [l[:400] for l in vl[:3]],
@@ -100,7 +101,7 @@ def main():
             m2.pop('source_dir', None)
             m2['what_was_run'] = ('demo.py on the unchanged tree (exit 0) and with the patch (exit 1); '
                                   'repository suite with the patch (60 passed); ./check %s --tier quick with '
-                                  'the patch applied to /repo (git apply; git checkout -- . afterwards)' % m['property'])
+                                  'the patch applied to %s (git apply; git checkout -- . afterwards)' % (m['property'], REPO))
             with open(os.path.join(dst, 'meta.json'), 'w') as f:
                 json.dump(m2, f, indent=1)
     with open(os.path.join(VERIF, '.work', 'seedeval_%d.json' % int(time.time())), 'w') as f:
